@@ -1,9 +1,11 @@
 package ir
 
 import (
+	"fmt"
 	"go/constant"
 	"go/token"
 	"go/types"
+	"os"
 	"strings"
 
 	"golang.org/x/tools/go/ssa"
@@ -200,6 +202,9 @@ func (w *World) holds(fn *ssa.Function, v ssa.Value, pol bool, m Matcher, en *en
 	k := holdKey{v, pol}
 	if busy[k] {
 		return true // coinductive: loop-carried phi
+	}
+	if handled, res := w.holdsVerdictExpr(e, pol, m, depth, busy, k); handled {
+		return res
 	}
 	switch x := v.(type) {
 	case *ssa.Phi:
@@ -1544,3 +1549,126 @@ func (w *World) recordOrigin(fn *ssa.Function, base ssa.Value, en *env, depth in
 
 // SingleAssignment: the binding is the address of a local stored to exactly once (and never by a closure): the value stored.
 func SingleAssignment(b ssa.Value) ssa.Value { return singleAssignment(b) }
+
+// holdsVerdictExpr: the condition compares, with a constant, a verdict that has travelled through data — the enumeration
+// result of an in-scope helper stored in a record or a list element and read back (`imp.queue == requeueRaised` where the
+// element was built with `queue: requeueForStatus(po.Status)`): the origin expression still names the call, and what the
+// verdict implies is read off the helper's returns with the call's arguments for its parameters. handled=false: not such
+// a comparison.
+func (w *World) holdsVerdictExpr(e *Expr, pol bool, m Matcher, depth int, busy map[holdKey]bool, k holdKey) (bool, bool) {
+	if e == nil || e.Op != "bin" || (e.Name != "==" && e.Name != "!=") || len(e.Args) != 2 || depth <= 0 {
+		return false, false
+	}
+	var kc, x *Expr
+	switch {
+	case e.Args[1].Op == "const":
+		kc, x = e.Args[1], e.Args[0]
+	case e.Args[0].Op == "const":
+		kc, x = e.Args[0], e.Args[1]
+	default:
+		return false, false
+	}
+	if !x.Any(func(z *Expr) bool { return z.Op == "call" || z.Op == "elem" || z.Op == "field" }) {
+		return false, false
+	}
+	// a discriminating field of an element of a list collected beforehand (`op.kind == opRegister` where the elements
+	// were appended as chargedOp{kind: opRegister} under one test and chargedOp{kind: opRecord} under another): the
+	// elements whose field has (has not) that constant are the ones appended at those places, under what guards them
+	if os.Getenv("MCDEBUG") == "verdict" {
+		fmt.Fprintln(os.Stderr, "verdict raw", kc.Name, "<-", x.String())
+	}
+	if x.Op == "field" && len(x.Args) == 1 && x.Args[0].Op == "elem" && len(x.Args[0].Args) >= 1 {
+		lst := x.Args[0].Args[0]
+		var host *ssa.Function
+		sub := (*env)(nil)
+		if lst.Op == "call" && lst.Callee != nil {
+			host = lst.Callee
+			params := map[string]*Expr{}
+			for i, p := range host.Params {
+				if i < len(lst.Args) {
+					params[p.Name()] = lst.Args[i]
+				}
+			}
+			sub = &env{params: params}
+		}
+		if items, ok := BuiltItems(w.Expand(lst, 4)); ok && len(items) > 0 {
+			want := (e.Name == "==") == pol
+			decided := true
+			for _, it := range items {
+				fv := fieldOf(it.Item, x.Name)
+				if fv.Op != "const" && fv.Op != "zero" {
+					decided = false
+					break
+				}
+			}
+			if decided {
+				busy[k] = true
+				defer delete(busy, k)
+				for _, it := range items {
+					fv := fieldOf(it.Item, x.Name)
+					same := fv.Op == "const" && fv.Name == kc.Name || fv.Op == "zero" && (kc.Name == "0" || strings.HasSuffix(kc.Name, "."+zeroEnumName(kc)))
+					if same != want {
+						continue
+					}
+					g := it.Site.Parent()
+					en2 := sub
+					if host == nil || g != host {
+						en2 = nil
+					}
+					if g == nil || !w.guarded(g, it.Site, m, en2, depth-1, busy) {
+						return true, false
+					}
+				}
+				return true, true
+			}
+		}
+	}
+	keepEnum := func(f *ssa.Function) bool {
+		for i := 0; i < f.Signature.Results().Len(); i++ {
+			if w.enumResult(f, i) {
+				return true
+			}
+		}
+		return false
+	}
+	x = w.ExpandKeep(x, 4, keepEnum)
+	if os.Getenv("MCDEBUG") == "verdict" {
+		fmt.Fprintln(os.Stderr, "verdict expr", kc.Name, "<-", x.String())
+	}
+	ri := 0
+	if x.Op == "res" && len(x.Args) == 1 {
+		fmt.Sscan(x.Name, &ri)
+		x = x.Args[0]
+	}
+	if x.Op != "call" || x.Callee == nil || !w.enumResult(x.Callee, ri) {
+		return false, false
+	}
+	g := x.Callee
+	params := map[string]*Expr{}
+	for i, p := range g.Params {
+		if i < len(x.Args) {
+			params[p.Name()] = x.Args[i]
+		}
+	}
+	sub := &env{params: params}
+	want := (e.Name == "==") == pol // the verdict equals the constant
+	busy[k] = true
+	defer delete(busy, k)
+	for _, r := range Returns(g) {
+		c, ok := r.Results[ri].(*ssa.Const)
+		if !ok {
+			return true, false
+		}
+		if (constName(c) == kc.Name) != want {
+			continue
+		}
+		if !w.guarded(g, r, m, sub, depth-1, busy) {
+			return true, false
+		}
+	}
+	return true, true
+}
+
+// zeroEnumName: placeholder for matching a zero-valued enumeration field against a named constant (not resolvable from the
+// name alone: returns a name that matches nothing).
+func zeroEnumName(*Expr) string { return "\x00" }
